@@ -186,6 +186,11 @@ class TxnaExpr(LeafExpr):
             )
         if isinstance(index, Expr):
             require_type(index, TealType.uint64)
+        elif not 0 <= index <= 255:
+            # a static index is emitted as a uint8 immediate of txna / gtxna / itxna ...
+            raise TealInputError(
+                f"Invalid array index {index}: a static index must be in the range [0, 255]. Use an Expr for larger indexes."
+            )
 
     def __init__(
         self,
